@@ -1,4 +1,4 @@
 From Coq Require Import ExtrOcamlBasic.
 From HV Require Import Gen.Tables Text.TypeOrder Text.TypeNames.
 Extraction "c11_model.ml" compare_types is_normal is_memory is_io is_misc is_cache is_dcache is_icache
-  type_sscanf_cur type_snprintf type_text attr_snprintf obj_type_string lit SIZEOF_ATTR_UNION.
+  type_sscanf_cur type_snprintf type_text attr_snprintf obj_type_string lit attr_union_size.
